@@ -1,3 +1,233 @@
-(* C04 — placeholder replaced below once MgmtProofs is in place *)
-From Coq Require Import List.
-From PyCasbin Require Import Base Mgmt.
+(* C19 — FastEnforcer decides exactly like Enforcer.
+   Model: Fast.v (casbin/model/policy_fast.py, model_fast.py, fast_enforcer.py and policy.py running on
+   the indexed container).  [k0 k1] is the cache-key order; [Inv] the representation invariant of the
+   two-level index; [R k0 k1 p l]: the index p (no filter pending) and the plain rule list l hold the
+   same duplicate-free set of rules. *)
+From Coq Require Import List NArith Bool Permutation.
+From PyCasbin Require Import Base Effect Enforce Policy PolicyProofs RoleGraph Mgmt Fast FastProofs.
+Import ListNotations.
+Local Open Scope N_scope.
+
+(* ---------- the index ---------- *)
+(* a bucket holds exactly the stored rules whose key fields are the bucket's keys *)
+Theorem C19_bucket_exact : forall k0 k1 c a b r,
+  Inv k0 k1 c -> (In r (bk c a b) <-> In r (all_rules c) /\ keys_of k0 k1 r = Some (a, b)).
+Proof. exact bucket_exact. Qed.
+Print Assumptions C19_bucket_exact.
+
+(* the iteration yields every stored rule once *)
+Theorem C19_index_duplicate_free : forall k0 k1 c, Inv k0 k1 c -> NoDup (all_rules c).
+Proof. exact NoDup_all_rules. Qed.
+Print Assumptions C19_index_duplicate_free.
+
+(* `rule in policy` is membership in the stored set, whatever filter is pending *)
+Theorem C19_contains_is_membership : forall k0 k1 p r,
+  Inv k0 k1 (fp_cache p) -> (fp_contains k0 k1 p r = true <-> In r (all_rules (fp_cache p))).
+Proof. exact contains_spec. Qed.
+Print Assumptions C19_contains_is_membership.
+
+(* append = set insertion (nothing else changes, the invariant and the pending filter are kept) *)
+Theorem C19_append_refines_set_add : forall k0 k1 p item a b,
+  Inv k0 k1 (fp_cache p) -> keys_of k0 k1 item = Some (a, b) ->
+  exists p', fp_append k0 k1 p item = (p', Ok tt)
+    /\ Inv k0 k1 (fp_cache p') /\ fp_filter p' = fp_filter p
+    /\ forall r, In r (all_rules (fp_cache p')) <-> r = item \/ In r (all_rules (fp_cache p)).
+Proof. exact append_spec. Qed.
+Print Assumptions C19_append_refines_set_add.
+
+(* a rule too short for a key position cannot be stored: IndexError, nothing changes *)
+Theorem C19_append_short_rule_raises : forall k0 k1 p item,
+  keys_of k0 k1 item = None -> fp_append k0 k1 p item = (p, Err EIndex).
+Proof. exact append_short. Qed.
+Print Assumptions C19_append_short_rule_raises.
+
+(* remove of a stored rule = set deletion of exactly that rule *)
+Theorem C19_remove_refines_set_remove : forall k0 k1 p item,
+  Inv k0 k1 (fp_cache p) -> In item (all_rules (fp_cache p)) ->
+  exists p', fp_remove k0 k1 p item = (p', Ok true)
+    /\ Inv k0 k1 (fp_cache p') /\ fp_filter p' = fp_filter p
+    /\ forall r, In r (all_rules (fp_cache p')) <-> In r (all_rules (fp_cache p)) /\ r <> item.
+Proof. exact remove_spec. Qed.
+Print Assumptions C19_remove_refines_set_remove.
+
+(* remove of an absent rule never changes the index *)
+Theorem C19_remove_absent_changes_nothing : forall k0 k1 p item,
+  Inv k0 k1 (fp_cache p) -> ~ In item (all_rules (fp_cache p)) ->
+  exists res, fp_remove k0 k1 p item = (p, res).
+Proof. exact remove_absent. Qed.
+Print Assumptions C19_remove_absent_changes_nothing.
+
+(* item assignment through index = delete the old rule, insert the new one *)
+Theorem C19_setitem_refines_replace : forall k0 k1 p old new i a b,
+  Inv k0 k1 (fp_cache p) -> fp_getitem p i = Ok old -> In old (all_rules (fp_cache p)) ->
+  keys_of k0 k1 new = Some (a, b) ->
+  exists p', fp_setitem k0 k1 p i new = (p', Ok tt)
+    /\ Inv k0 k1 (fp_cache p') /\ fp_filter p' = fp_filter p
+    /\ forall r, In r (all_rules (fp_cache p')) <-> r = new \/ (In r (all_rules (fp_cache p)) /\ r <> old).
+Proof. exact setitem_spec. Qed.
+Print Assumptions C19_setitem_refines_replace.
+
+(* under the filter chosen by apply_filter the iteration is exactly the stored rules with those key fields *)
+Theorem C19_filtered_view_exact : forall k0 k1 p a b r,
+  Inv k0 k1 (fp_cache p) ->
+  (In r (fp_iter (fp_apply_filter p a b)) <-> In r (all_rules (fp_cache p)) /\ keys_of k0 k1 r = Some (a, b)).
+Proof. exact filtered_view_exact. Qed.
+Print Assumptions C19_filtered_view_exact.
+
+(* fast_policy_filter leaves the filter cleared, also when its body raises *)
+Theorem C19_with_filter_clears : forall (A : Type) p a b (body : fpol -> fpol * result A),
+  fp_filter (fst (fp_with_filter p a b body)) = FNone.
+Proof. exact @with_filter_clears. Qed.
+Print Assumptions C19_with_filter_clears.
+
+(* ---------- management calls: same results, same set of rules ---------- *)
+Theorem C19_management_step_simulates : forall k0 k1 p l o,
+  R k0 k1 p l -> wf_op k0 k1 o ->
+  exists p', fstep k0 k1 p o = (p', snd (pstep l o)) /\ R k0 k1 p' (fst (pstep l o)).
+Proof. exact sim_step. Qed.
+Print Assumptions C19_management_step_simulates.
+
+(* every history of add / batch add / remove / batch remove / filtered remove / update / batch update calls,
+   of any length and with any arguments that reach the key positions: the same answers call by call and
+   the same set of rules at the end *)
+Theorem C19_history_simulation : forall k0 k1 ops p l,
+  R k0 k1 p l -> Forall (wf_op k0 k1) ops ->
+  snd (frun k0 k1 p ops) = snd (prun l ops) /\ R k0 k1 (fst (frun k0 k1 p ops)) (fst (prun l ops)).
+Proof. exact history_simulation. Qed.
+Print Assumptions C19_history_simulation.
+
+(* the plain side of that simulation is the rule store of C06 *)
+Theorem C19_plain_side_is_policy_store : forall l o, fst (pstep l o) = sstep l o.
+Proof. exact pstep_store. Qed.
+Print Assumptions C19_plain_side_is_policy_store.
+
+Theorem C19_index_is_permutation_of_plain : forall k0 k1 p l, R k0 k1 p l -> Permutation (fp_iter p) l.
+Proof. exact R_permutation. Qed.
+Print Assumptions C19_index_is_permutation_of_plain.
+
+(* the index never hides a rule: every rule of the plain policy is in the whole iteration AND in the
+   filtered view selected by its own key fields *)
+Theorem C19_never_hides : forall k0 k1 p l r,
+  R k0 k1 p l -> In r l ->
+  exists a b, keys_of k0 k1 r = Some (a, b) /\ In r (fp_iter (fp_apply_filter p a b)) /\ In r (fp_iter p).
+Proof. exact never_hides. Qed.
+Print Assumptions C19_never_hides.
+
+(* ... and never resurrects one: a rule that is not in the plain policy is in no view of the index *)
+Theorem C19_never_resurrects : forall k0 k1 p l r,
+  R k0 k1 p l -> ~ In r l ->
+  ~ In r (fp_iter p) /\ (forall a b, ~ In r (fp_iter (fp_apply_filter p a b))) /\ fp_contains k0 k1 p r = false.
+Proof. exact never_resurrects. Qed.
+Print Assumptions C19_never_resurrects.
+
+(* after ANY management history from the empty policy, the view FastEnforcer selects for keys (a, b) is
+   exactly the plain policy's rules with those key fields *)
+Theorem C19_history_view_exact : forall k0 k1 ops, Forall (wf_op k0 k1) ops ->
+  forall r a b, In r (fp_iter (fp_apply_filter (fst (frun k0 k1 fp_new ops)) a b))
+                <-> In r (fst (prun [] ops)) /\ keys_of k0 k1 r = Some (a, b).
+Proof. exact history_view_exact. Qed.
+Print Assumptions C19_history_view_exact.
+
+(* ---------- decisions ---------- *)
+(* keys compared by equality: a rule whose key fields differ from the request's cannot match *)
+Theorem C19_outside_bucket_is_nomatch : forall k0 k1 k s req r a b a' b',
+  admissible k k0 = true -> admissible k k1 = true ->
+  nth_error req k0 = Some a -> nth_error req k1 = Some b ->
+  keys_of k0 k1 r = Some (a', b') -> (a', b') <> (a, b) -> length r = p_arity k ->
+  rule_outcome k s req r = NoMatch.
+Proof. exact outside_nomatch. Qed.
+Print Assumptions C19_outside_bucket_is_nomatch.
+
+(* FastEnforcer.enforce = Enforcer.enforce (result AND the index is handed back unchanged, filter cleared),
+   for the order-insensitive effectors, cache keys on fields the matcher compares by equality, rules of the
+   declared length, a request that reaches the key positions — EXCEPT under empty_rule_quirk (known finding
+   C19/empty-key-request) *)
+Theorem C19_decide_equal_partial : forall k0 k1 k s p l req a b,
+  R k0 k1 p l ->
+  admissible k k0 = true -> admissible k k1 = true -> k_eff k <> PR ->
+  (forall r, In r l -> length r = p_arity k) ->
+  nth_error req k0 = Some a -> nth_error req k1 = Some b ->
+  empty_rule_quirk k0 k1 k s p req = false ->
+  fe_enforce k0 k1 k s p req = (p, plain_enforce k s l req).
+Proof. exact decide_equal. Qed.
+Print Assumptions C19_decide_equal_partial.
+
+Theorem C19_decide_equal_after_any_history_partial : forall k0 k1 k s ops req a b,
+  Forall (wf_op k0 k1) ops ->
+  admissible k k0 = true -> admissible k k1 = true -> k_eff k <> PR ->
+  (forall r, In r (fst (prun [] ops)) -> length r = p_arity k) ->
+  nth_error req k0 = Some a -> nth_error req k1 = Some b ->
+  empty_rule_quirk k0 k1 k s (fst (frun k0 k1 fp_new ops)) req = false ->
+  snd (fe_enforce k0 k1 k s (fst (frun k0 k1 fp_new ops)) req) = plain_enforce k s (fst (prun [] ops)) req.
+Proof. exact decide_equal_after_history. Qed.
+Print Assumptions C19_decide_equal_after_any_history_partial.
+
+(* the plain side is the decision of the Mgmt model's Enforcer (C01/C04...) *)
+Theorem C19_plain_is_mgmt_enforcer : forall k s req,
+  plain_enforce k s (m_p s) req = rbind (snd (enforce_ex_m k s req)) (fun p => Ok (fst p)).
+Proof. exact plain_is_mgmt. Qed.
+Print Assumptions C19_plain_is_mgmt_enforcer.
+
+(* a request that does not reach a cache-key position raises IndexError before the enabled / arity checks *)
+Theorem C19_short_request_raises : forall k0 k1 k s p req,
+  nth_error req k0 = None \/ nth_error req k1 = None -> fe_enforce k0 k1 k s p req = (p, Err EIndex).
+Proof. exact short_request_raises. Qed.
+Print Assumptions C19_short_request_raises.
+
+(* ---------- refuted parts (each witness replayed on the implementation is a listed finding) ---------- *)
+(* known finding C19/empty-key-request: every hypothesis of C19_decide_equal_partial but the guard *)
+Theorem C19_empty_key_request_refuted :
+  exists k s p l req a b,
+    R 2 1 p l /\ admissible k 2 = true /\ admissible k 1 = true /\ k_eff k <> PR
+    /\ (forall r, In r l -> length r = p_arity k)
+    /\ nth_error req 2 = Some a /\ nth_error req 1 = Some b
+    /\ empty_rule_quirk 2 1 k s p req = true
+    /\ snd (fe_enforce 2 1 k s p req) = Ok true /\ plain_enforce k s l req = Ok false.
+Proof. exact empty_key_request_refuted. Qed.
+Print Assumptions C19_empty_key_request_refuted.
+
+(* known finding C19/short-request-indexed-first *)
+Theorem C19_short_request_refuted :
+  exists k s p l req,
+    R 2 1 p l /\ m_enabled s = false
+    /\ snd (fe_enforce 2 1 k s p req) = Err EIndex /\ plain_enforce k s l req = Ok true.
+Proof. exact short_request_refuted. Qed.
+Print Assumptions C19_short_request_refuted.
+
+(* the priority effector: same answers and same set, but update moves a rule to the end of its bucket while
+   the list rewrites in place; the first deciding rule differs and so does the decision *)
+Theorem C19_priority_order_refuted :
+  Forall (wf_op 2 1) pr_ops /\ admissible K_EFT_PR 2 = true /\ admissible K_EFT_PR 1 = true
+  /\ snd (frun 2 1 fp_new pr_ops) = snd (prun [] pr_ops)
+  /\ fst (prun [] pr_ops) = [pr_A; pr_D]
+  /\ fp_iter (fp_apply_filter (fst (frun 2 1 fp_new pr_ops)) 1009 1008) = [pr_D; pr_A]
+  /\ plain_enforce K_EFT_PR (s_on K_EFT_PR) (fst (prun [] pr_ops)) [1003; 1008; 1009] = Ok true
+  /\ snd (fe_enforce 2 1 K_EFT_PR (s_on K_EFT_PR) (fst (frun 2 1 fp_new pr_ops)) [1003; 1008; 1009]) = Ok false.
+Proof. exact priority_order_refuted. Qed.
+Print Assumptions C19_priority_order_refuted.
+
+(* ---------- non-vacuity ---------- *)
+(* a 7-call history on the index with key order [2; 1]: answers and final views *)
+Example C19_example_history :
+  snd (frun 2 1 fp_new ex_ops) = [Ok true; Ok true; Ok false; Ok true; Ok true; Ok true; Ok true]
+  /\ snd (prun [] ex_ops) = snd (frun 2 1 fp_new ex_ops)
+  /\ fst (prun [] ex_ops) = [[1006; 1008; 1009]]
+  /\ fp_iter (fst (frun 2 1 fp_new ex_ops)) = [[1006; 1008; 1009]]
+  /\ fp_iter (fp_apply_filter (fst (frun 2 1 fp_new ex_ops)) 1009 1008) = [[1006; 1008; 1009]]
+  /\ fp_iter (fp_apply_filter (fst (frun 2 1 fp_new ex_ops)) 1009 1011) = [].
+Proof. vm_compute. repeat split; reflexivity. Qed.
+
+(* the hypotheses of C19_decide_equal_after_any_history_partial hold of that history with the ACL matcher and a
+   request that selects a non-empty bucket, and one that selects an empty bucket with non-empty key fields *)
+Example C19_example_decide_hypotheses :
+  Forall (wf_op 2 1) ex_ops /\ admissible K_ACL 2 = true /\ admissible K_ACL 1 = true /\ k_eff K_ACL <> PR
+  /\ (forall r, In r (fst (prun [] ex_ops)) -> length r = p_arity K_ACL)
+  /\ empty_rule_quirk 2 1 K_ACL (s_on K_ACL) (fst (frun 2 1 fp_new ex_ops)) [1006; 1008; 1009] = false
+  /\ snd (fe_enforce 2 1 K_ACL (s_on K_ACL) (fst (frun 2 1 fp_new ex_ops)) [1006; 1008; 1009]) = Ok true
+  /\ empty_rule_quirk 2 1 K_ACL (s_on K_ACL) (fst (frun 2 1 fp_new ex_ops)) [1006; 1011; 1009] = false
+  /\ snd (fe_enforce 2 1 K_ACL (s_on K_ACL) (fst (frun 2 1 fp_new ex_ops)) [1006; 1011; 1009]) = Ok false.
+Proof.
+  split; [repeat constructor; unfold wf; vm_compute; discriminate|].
+  repeat split; try (vm_compute; reflexivity); try discriminate.
+  vm_compute. intros r [H|[]]. subst. reflexivity.
+Qed.
